@@ -339,4 +339,72 @@ def generated_rule_holds_on_source(a):
         a.candidates.append(item)
 
 
-SITES = {"C19": [print_rules_structure, gen_rules_step, generated_rule_holds_on_source]}
+def rule_names_distinct(a):
+    """C19: the generated file must be a rules file whose rules PASS on the template. print_rules derives the rule name AND the
+    variable name of a type from `type.replace(SEP, REP).to_lowercase()` (constants and call chain read from the MIR of the current
+    tree). Over a 3-symbol model of a type name (each symbol: the separator, the replacement text, an upper-case letter, a lower-case
+    letter) the solvers are asked for two DIFFERENT types with the SAME derived name: such a pair makes the file define the variable
+    and the rule twice (the second `let` shadows / the rule is evaluated per definition), and the rules no longer describe the
+    template. Abstract obligation (a model of two std string functions by their documented contract), like KF2's."""
+    body = mirsmt.find_fn(a.mir, r"(?:commands::rulegen::)?print_rules")
+    m = re.search(r"str::<impl str>::replace::<&str>\((?:copy|move) _\d+, const \"([^\"]*)\", (?:move|copy) (_\d+)\)", body)
+    low = re.search(r"str::<impl str>::to_lowercase\(", body)
+    rep = None
+    if m:
+        mm = re.search(re.escape(m.group(2)) + r" = const \"([^\"]*)\"", body)
+        rep = mm.group(1) if mm else None
+    if not (m and low and rep is not None):
+        a.ob.items.append({"obligation": "rulegen/distinct-types-distinct-rule-names", "describe": "the name derivation of print_rules is no longer "
+                           "`type.replace(<const>, <const>).to_lowercase()`: the obligation cannot be stated on this code (inconclusive, not a pass)",
+                           "verdicts": {}, "status": "inconclusive", "model": None})
+        return
+    sep = m.group(1)
+    # symbols: 0 = SEP, 1 = REP, 2 = upper-case letter L, 3 = lower-case letter l (same letter); image under replace+lowercase: 0->1, 2->3
+    decls, side = [], []
+    for w in "ab":
+        for i in range(3):
+            decls.append(f"(declare-const {w}{i} Int)")
+            side.append(f"(and (<= 0 {w}{i}) (<= {w}{i} 3))")
+    img = lambda v: f"(ite (= {v} 0) 1 (ite (= {v} 2) 3 {v}))"
+    differ = "(or " + " ".join(f"(not (= a{i} b{i}))" for i in range(3)) + ")"
+    same = "(and " + " ".join(f"(= {img(f'a{i}')} {img(f'b{i}')})" for i in range(3)) + ")"
+    # REP inside a type name only matters if it is a legal character of a type name: `_` is (Custom::Log_Shipper); SEP must be `::`
+    a.ob.check("rulegen/distinct-types-distinct-rule-names", decls, side, f"(and {differ} {same})",
+               f"rulegen, name derivation `type.replace({sep!r}, {rep!r}).to_lowercase()` (read from MIR) over 3-symbol type names: two different "
+               "resource types never get the same rule / variable name")
+    item = a.ob.items[-1]
+    item["paths"], item["cut_by_unroll_bound"], item["unroll"] = 1, 0, 0
+    a.fns.append("commands::rulegen::print_rules (name derivation)")
+    if item["status"] == "refuted":
+        item["replay"] = replay_rule_name_collision(a, sep, rep)
+        item["reproduced"] = item["replay"].get("reproduced", False)
+        a.candidates.append(item)
+
+
+def replay_rule_name_collision(a, sep="::", rep="_"):
+    exe = a.cli()
+    if not exe:
+        return {"reproduced": False, "note": "native build failed"}
+    out = []
+    d = tempfile.mkdtemp(prefix="cfnverif_replay_")
+    env = dict(os.environ)
+    env["RUST_BACKTRACE"] = "0"
+    try:
+        for label, t1, t2 in (("separator vs its replacement", f"Custom{sep}Log{rep}Shipper", f"Custom{sep}Log{sep}Shipper"),
+                              ("letter case", f"Custom{sep}Thing", f"Custom{sep}THING")):
+            t = {"Resources": {"a": {"Type": t1, "Properties": {"X": 1}}, "b": {"Type": t2, "Properties": {"X": 2}}}}
+            open(os.path.join(d, "t.json"), "w").write(json.dumps(t, indent=1))
+            pg = subprocess.run([exe, "rulegen", "-t", "t.json"], cwd=d, capture_output=True, text=True, env=env, timeout=60)
+            open(os.path.join(d, "g.guard"), "w").write(pg.stdout)
+            names = re.findall(r"^rule (\w+) when", pg.stdout, re.M)
+            pv = subprocess.run([exe, "validate", "-r", "g.guard", "-d", "t.json", "--show-summary", "none"], cwd=d, capture_output=True, text=True,
+                                env=env, timeout=60)
+            if len(set(names)) != len(names) or pv.returncode != 0:
+                out.append({"case": label, "types": [t1, t2], "rule_names": names, "validate_exit_on_own_template": pv.returncode,
+                            "generated": pg.stdout[:400]})
+        return {"reproduced": bool(out), "mismatches": out}
+    finally:
+        shutil.rmtree(d, ignore_errors=True)
+
+
+SITES = {"C19": [print_rules_structure, gen_rules_step, generated_rule_holds_on_source, rule_names_distinct]}
